@@ -109,7 +109,10 @@ func (self *Analyzer) triggerStatement(node pAst.TriggerStatement) ast.AnalyzedT
 		}
 	}
 
-	if self.currentModule.CurrentFunction.FnType.Kind() == normalFunctionKind {
+	if self.currentModule.CurrentFunction == nil {
+		// outside of any function (e.g. in the initializer of a global), there is no current function to compare with
+		callbackFn.Used = true
+	} else if self.currentModule.CurrentFunction.FnType.Kind() == normalFunctionKind {
 		currFn := self.currentModule.CurrentFunction.FnType.(normalFunction)
 		if callbackFn.FnType.Kind() == normalFunctionKind {
 			toBeCalled := callbackFn.FnType.(normalFunction)
